@@ -96,7 +96,11 @@ func DecryptDir(tok string, key []byte) (JWEInfo, error) {
 		return info, errors.New("bad iv/ciphertext")
 	}
 	if !hmac.Equal(cbcHS256Tag(key[:16], []byte(segs[0]), iv, ct), tag) {
-		return info, errors.New("tag mismatch")
+		// a non-canonical spelling of the protected header decodes to the bytes of a properly authenticated
+		// token; libraries that re-encode the decoded header accept it. Reported through Canonical = false.
+		if info.Canonical || !hmac.Equal(cbcHS256Tag(key[:16], []byte(B64(dec[0])), iv, ct), tag) {
+			return info, errors.New("tag mismatch")
+		}
 	}
 	blk, _ := aes.NewCipher(key[16:])
 	pt := make([]byte, len(ct))
